@@ -228,7 +228,7 @@ func genC15(seed uint64, tier Tier) *Case {
 		c.Knobs.StepCostNs = 0
 		c.Knobs.ZstdLevel = 1
 		c.Knobs.SkipSortDocs = false
-		c.Knobs.FracSize = 3000 // rotation looks at the docs file only; docs+meta is about 1.6x that
+		c.Knobs.FracSize = 3000  // rotation looks at the docs file only; docs+meta is about 1.6x that
 		c.Knobs.TotalSize = 8000 // retention counts docs+meta+index: a fraction is rotated out at about 7.2 KB (six uniform bulks), the limit holds it but not it plus one more bulk
 	}
 	c.Oracles.Retention = true
@@ -249,6 +249,19 @@ func genC15(seed uint64, tier Tier) *Case {
 				f.Nth = g.r.Range(1, 40)
 			}
 			f.ImageMode = []string{"", "", "all", "none"}[g.r.Intn(4)]
+			if g.r.Bool(0.12) {
+				// rewriting .frac-cache fails (disk error, disk full): the file is an optimisation, the store goes on
+				f.Action = []string{"eio", "enospc", "short"}[g.r.Intn(3)]
+				f.Op = []string{"write", "create", "rename", "sync"}[g.r.Intn(4)]
+				f.PathSuffix, f.After = []string{".frac-cache", ""}[0], false
+				if f.Op == "write" || f.Op == "create" || f.Op == "sync" {
+					f.PathSuffix = "" // the temporary name carries a counter: match by operation count instead
+					f.Op = "mut"
+					f.Nth = g.r.Range(1, 30)
+					f.Action = "crash" // (only the rename target is matched by name; other failing writes stay crashes)
+				}
+				f.Nth = max(1, f.Nth)
+			}
 			c.Faults = append(c.Faults, f)
 		}
 		c.Steps = append(c.Steps, Step{Kind: "arm", Group: round})
@@ -478,6 +491,11 @@ func genC19(seed uint64, tier Tier) *Case {
 			f.Nth = g.r.Range(1, 8*nfrac)
 		}
 		f.ImageMode = []string{"", "", "all", "none"}[g.r.Intn(4)]
+		if g.r.Bool(0.2) && f.Op != "mut" {
+			// the write itself fails: the searcher gives up the process (Fatal), which is a crash like any other
+			f.Action = []string{"eio", "enospc"}[g.r.Intn(2)]
+			c.Oracles.TolerateDeath = true
+		}
 		c.Faults = append(c.Faults, f)
 		c.Steps = append(c.Steps, Step{Kind: "arm", Group: 1})
 	}
